@@ -280,6 +280,8 @@ type C02Ptrs struct {
 	L       []*bool
 	M       map[string]*bool
 	X, Y    any
+	MA, MB  map[string]any
+	LA, LB  []int
 }
 
 type c02inner struct {
@@ -447,6 +449,25 @@ func seedIfaceSlices(t *tape.Tape, v reflect.Value) int {
 	if len(held) >= 2 && t.Intn(3) == 2 {
 		held[1].Set(held[0].Elem()) // two fields share one slice
 		n++
+	}
+	// two fields of one map type share one map: as filled, or empty but not nil
+	if p, ok := v.Addr().Interface().(*C02Ptrs); ok {
+		switch t.Intn(5) {
+		case 3:
+			if p.MA == nil {
+				p.MA = map[string]any{}
+			}
+			p.MB = p.MA
+			n++
+		case 4:
+			p.MA = map[string]any{}
+			p.MB = p.MA
+			n++
+		}
+		if t.Intn(4) == 3 && p.LA != nil {
+			p.LB = p.LA
+			n++
+		}
 	}
 	return n
 }
